@@ -11,6 +11,7 @@ import (
 	"verif/kit"
 
 	"github.com/youchainhq/go-youchain/common"
+	"github.com/youchainhq/go-youchain/core/types"
 	"github.com/youchainhq/go-youchain/youdb"
 )
 
@@ -46,16 +47,17 @@ type directedSpec struct {
 	QHave   int       `json:"q_have"`
 	QMsItem int       `json:"q_ms_per_body"` // Q's service time per body
 	PExtra  bool      `json:"p_repeats_late_answer"`
+	A2Ms    int       `json:"p_ms_before_answer_to_r2"` // P stays flagged busy without a request that long on the unchanged code
 	Seeds   []int64   `json:"seeds"`
 }
 
 // directedTrace is what the scripted peers saw (witness and counters).
 type directedTrace struct {
-	PAnswered   int     `json:"p_prompt_answers_before_r1"`
-	R1          []int   `json:"r1_block_ids"`
-	R2          []int   `json:"r2_block_ids"`
-	QTookLowest bool    `json:"q_was_given_r1_first_block"`
-	QRequests   [][]int `json:"q_requests"`
+	PAnswered   int      `json:"p_prompt_answers_before_r1"`
+	R1          []int    `json:"r1_block_ids"`
+	R2          []int    `json:"r2_block_ids"`
+	QTookLowest bool     `json:"q_was_given_r1_first_block"`
+	QRequests   [][]int  `json:"q_requests"`
 	Events      []string `json:"events"`
 }
 
@@ -84,7 +86,24 @@ func (s *directedScript) event(f string, a ...interface{}) {
 	s.tr.Events = append(s.tr.Events, fmt.Sprintf(f, a...))
 }
 
-func (s *directedScript) halt() { s.stopO.Do(func() { close(s.stop) }) }
+// halt ends the choreography: waiting handlers return, later requests are answered at once.
+func (s *directedScript) halt() {
+	s.stopO.Do(func() {
+		s.mu.Lock()
+		s.phase = dFree
+		s.mu.Unlock()
+		close(s.stop)
+	})
+}
+
+func (s *directedScript) trace() directedTrace {
+	s.mu.Lock()
+	defer s.mu.Unlock()
+	t := s.tr
+	t.Events = append([]string(nil), s.tr.Events...)
+	t.QRequests = append([][]int(nil), s.tr.QRequests...)
+	return t
+}
 
 func idsOf(ch *chain, hashes []common.Hash, have int) []int {
 	var ids []int
@@ -99,7 +118,7 @@ func idsOf(ch *chain, hashes []common.Hash, have int) []int {
 func (s *directedScript) full(p *e2ePeer, ids []int) error {
 	bodies, _ := buildResponse(nil, s.h.ch, ids, rFull)
 	if bodies == nil {
-		bodies = [][]*typesTx{}
+		bodies = [][]*types.Transaction{}
 	}
 	return p.handOver(bodies)
 }
@@ -158,6 +177,13 @@ func (s *directedScript) serveP(p *e2ePeer, hashes []common.Hash, ans *answer) e
 		case <-s.stop:
 			return nil
 		}
+		if s.sp.A2Ms > 0 {
+			select {
+			case <-time.After(time.Duration(s.sp.A2Ms) * time.Millisecond):
+			case <-s.stop:
+				return nil
+			}
+		}
 		err := s.full(p, ids)
 		s.mu.Lock()
 		s.phase = dFree
@@ -178,7 +204,7 @@ func (s *directedScript) serveQ(q *e2ePeer, hashes []common.Hash, ans *answer) e
 	ids := idsOf(s.h.ch, hashes, q.have)
 	s.mu.Lock()
 	s.tr.QRequests = append(s.tr.QRequests, all)
-	if len(s.tr.R1) > 0 && len(all) > 0 && all[0] == s.tr.R1[0] && s.phase == dHold {
+	if len(s.tr.R1) > 0 && len(all) > 0 && all[0] == s.tr.R1[0] && !s.tr.QTookLowest {
 		s.tr.QTookLowest = true
 		s.event("Q: given blocks %v, the lowest of the expired R1", all)
 	}
@@ -215,6 +241,9 @@ func genDirectedSpec(r *rand.Rand, i int) directedSpec {
 	}
 	sp.QMsItem = 120 + r.Intn(80)
 	sp.PExtra = r.Intn(4) == 0
+	if r.Intn(2) == 0 {
+		sp.A2Ms = 150 + r.Intn(400)
+	}
 	sp.Seeds = []int64{r.Int63(), r.Int63()}
 	return sp
 }
@@ -234,7 +263,7 @@ func runDirectedCase(c *kit.Ctx, id string, i int) {
 	s.q = &e2ePeer{h: h, idx: 1, id: peerName(1), have: sp.QHave, r: rand.New(rand.NewSource(sp.Seeds[1])), script: s.serveQ}
 	h.peers = []*e2ePeer{s.p, s.q}
 	h.honestIDs[s.p.id] = true
-	h.directed = map[string]interface{}{"spec": sp, "trace": &s.tr}
+	h.directed = func() interface{} { return map[string]interface{}{"spec": sp, "trace": s.trace()} }
 	h.register(s.p)
 	h.register(s.q)
 	mon := newStallMon()
@@ -261,9 +290,7 @@ func runDirectedCase(c *kit.Ctx, id string, i int) {
 		c.Count("directed_cases", 1)
 		c.Count("e2e_insert_calls", rec.calls)
 		c.Count("e2e_blocks_imported", rec.height())
-		s.mu.Lock()
-		tr := s.tr
-		s.mu.Unlock()
+		tr := s.trace()
 		pl := h.led.get(s.p.id)
 		if len(tr.R2) > 0 {
 			c.Count("directed_p_reassigned_while_r1_unanswered", 1)
@@ -289,7 +316,7 @@ func runDirectedCase(c *kit.Ctx, id string, i int) {
 		rec.mu.Unlock()
 		c.Evals(1)
 		if bad != nil {
-			c.Violation("e2e-"+bad.class, when+": importer received "+bad.msg, map[string]interface{}{"directed": h.directed, "sync_outcomes": outcomes})
+			c.Violation("e2e-"+bad.class, when+": importer received "+bad.msg, map[string]interface{}{"directed": h.directed(), "sync_outcomes": outcomes})
 			return false
 		}
 		return true
@@ -315,7 +342,7 @@ func runDirectedCase(c *kit.Ctx, id string, i int) {
 		c.Count("directed_sync_"+kind, 1)
 		if kind != "ok" && kind != "deadlock" {
 			sawTimeout = true
-			c.Note(fmt.Sprintf("%s: directed sync attempt %d ended with %q (spec %+v, trace %+v); worst scheduling stall of this process %v; downloader log tail: %q", id, attempts, kind, sp, s.tr, mon.worstStall(), logTail(e2eLogTail())))
+			c.Note(fmt.Sprintf("%s: directed sync attempt %d ended with %q (spec %+v, trace %+v); worst scheduling stall of this process %v; downloader log tail: %q", id, attempts, kind, sp, s.trace(), mon.worstStall(), logTail(e2eLogTail())))
 		}
 		if !checkImporter("after directed sync attempt") {
 			finish()
@@ -336,7 +363,7 @@ func runDirectedCase(c *kit.Ctx, id string, i int) {
 			c.EndInconclusive(fmt.Sprintf("directed syncs failed while this process was being starved (worst scheduling stall %v): %v", st, outcomes))
 			return
 		}
-		c.Violation("e2e-incomplete-without-faults", fmt.Sprintf("directed scenario: the honest master with the full chain answered every request and was synced %d times, yet only %d of %d blocks reached the importer: %v", attempts, got, len(ch.hdrs), outcomes), map[string]interface{}{"directed": h.directed, "sync_outcomes": outcomes})
+		c.Violation("e2e-incomplete-without-faults", fmt.Sprintf("directed scenario: the honest master with the full chain answered every request and was synced %d times, yet only %d of %d blocks reached the importer: %v", attempts, got, len(ch.hdrs), outcomes), map[string]interface{}{"directed": h.directed(), "sync_outcomes": outcomes})
 		c.End("violated")
 		return
 	}
@@ -345,5 +372,5 @@ func runDirectedCase(c *kit.Ctx, id string, i int) {
 	if reached {
 		c.Count("directed_completed_after_history_reached", 1)
 	}
-	c.End(fmt.Sprintf("directed %s reached%v extra%v r1x%d %v", sp.Variant, reached, sp.PExtra, len(s.tr.R1), outcomes))
+	c.End(fmt.Sprintf("directed %s reached%v extra%v r1x%d %v", sp.Variant, reached, sp.PExtra, len(s.trace().R1), outcomes))
 }
